@@ -3,7 +3,7 @@
 # usage: tools/baseline.sh [repo_dir] [out_prefix]
 REPO=${1:-/repo}
 OUT=${2:-/tmp/baseline_$$}
-cd "$REPO" && env -u PYTHON_MINIFIER_VERIF /venv/bin/python -m pytest -ra -q -p no:cacheprovider --timeout=900 --continue-on-collection-errors --junitxml=$OUT.xml > $OUT.log 2>&1
+cd "$REPO" && env -u PYTHON_MINIFIER_VERIF PYTHONPATH="$REPO/src" /venv/bin/python -m pytest -ra -q -p no:cacheprovider --timeout=900 --continue-on-collection-errors --junitxml=$OUT.xml > $OUT.log 2>&1
 /venv/bin/python - "$OUT.xml" <<'PY'
 import json, sys, xml.etree.ElementTree as ET
 base = json.load(open('/root/.vp/BASELINE.json'))
